@@ -9,6 +9,36 @@ CHECKS = {
          "every history up to the stated depth over a collision-forcing namespace alphabet on FAT12/16/32 tiny volumes: results equal the in-memory tree model, raw image decodes to the model tree after every call, failed calls change nothing",
          "bounded by depth/alphabet/configurations listed in the evidence; trusted: independent decoder, determinism of the library (re-execution sample)",
          "DESIGN.md §4 C01"),
+ "C02": ("explorer", "model_checking",
+         "explicit-state BFS over seek/read/write/truncate/flush/reopen histories on two handles, byte-vector reference model + independent decoder",
+         "every history up to the stated depth over boundary offsets/lengths (0, 1, cs-1, cs, cs+1, 2cs+1, 3cs) on FAT12/16/32, exact and short-transferring devices, several cluster sizes: every returned count/position/byte equals the model; contents re-read through a fresh handle, the independent decode and the device bytes at extents() equal the model",
+         "bounded by depth/alphabet/configurations listed in the evidence; trusted: independent decoder",
+         "DESIGN.md §4 C02"),
+ "C03": ("explorer", "model_checking",
+         "explicit-state BFS, independent FAT decoder's structural-invariant report evaluated on the raw image after every call",
+         "after every call of every history up to the stated depth (namespace + file I/O + stats + remount, failing calls included, tiny volumes / full roots / short-transferring device / geometry grid) the raw image satisfies the FAT invariants I1-I6 (chains, ownership, sizes, dot entries, end marker, long-name runs, duplicates)",
+         "files with a live modified handle are judged with the handle's first cluster and strictly after flushing (deferred metadata, DESIGN §3.2); trusted: independent decoder",
+         "DESIGN.md §4 C03"),
+ "C04": ("explorer", "model_checking",
+         "explicit-state BFS with a remount + independent-decode observation suffix at every node",
+         "at every node of the exploration: after dropping handles, the independent decode (also of the not-unmounted image), a second mount and the device bytes at extents() all equal the session's view (the reference model kept in lockstep with the results)",
+         "bounded by depth/alphabet/configurations listed in the evidence; trusted: independent decoder",
+         "DESIGN.md §4 C04"),
+ "C05": ("explorer", "model_checking",
+         "explicit-state BFS over allocate/free histories (fill-to-full, delete-all cycles), free count from the independent FAT decode",
+         "after every call: stats() equals the free entries the independent decoder counts; removing gives back the whole chain; NotEnoughSpace only when the pre-state really has no room; fs-info after unmount carries the count and an in-range hint; delete-all restores the initial capacity; FAT32 fs-info count/hint variants",
+         "bounded by depth/alphabet/configurations listed in the evidence",
+         "DESIGN.md §4 C05"),
+ "C12": ("explorer", "model_checking",
+         "explicit-state BFS; raw status byte and a mount of the abandoned image examined at every call boundary",
+         "at every call boundary of every history (status byte at mount 0..3, FAT12/16 offset 0x25, FAT32 0x41): a structural change implies the dirty bit is set and an abandoned image mounts as dirty; mount-time bits are never cleared; unmount/drop restores the mount-time byte",
+         "change detection = reference model (successful mutating calls) OR independent before/after decode; reserved status bits outside {0..3} not explored",
+         "DESIGN.md §4 C12"),
+ "C13": ("explorer", "model_checking",
+         "explicit-state BFS over a read-only alphabet with a whole-session device write log",
+         "every history of non-mutating calls up to the stated depth on populated FAT12/16/32 volumes (clean/dirty at mount, fs-info count exact/missing/too large): the device log of the whole session incl. drop/unmount contains no write and the image is byte-identical; only exception: fs-info sector after stats on FAT32 without a usable count",
+         "access-date updating off; populated volume made by the library itself (builder-made variant: see C08)",
+         "DESIGN.md §4 C13"),
 }
 
 NOT_YET = {}
